@@ -5,7 +5,7 @@
 From RU Require Import Base.Prelude Base.Utf8 Base.Utf8Facts Model.AsciiSet Gen.Tables Model.PercentEncoding
   Model.HostT Model.UrlRecord Model.Parser Model.Setters Model.WF
   Proofs.C14_Set Proofs.C14_Enc Proofs.C14_Views Proofs.ListN
-  Proofs.C05_Enc Proofs.C05_Parser Proofs.C05_Setters Proofs.C05_History Proofs.C05_Sharp.
+  Proofs.C05_Enc Proofs.C05_Parser Proofs.C05_Setters Proofs.C05_History Proofs.C05_Sharp Proofs.C05_Frag.
 
 (* ================= 1. encoder alphabet ================= *)
 
@@ -136,6 +136,33 @@ Check C05_bytes : forall dbg hp hpo hd ovr base input u,
   parse_url dbg hp hpo hd ovr base input = POk u ->
   sharp u.
 Print Assumptions C05_bytes.
+
+(* a component clause for the STORED slice: the fragment of every parse result (no hypothesis on the
+   host functions, on the base - its fragment is never kept - or on the input) and of every
+   set_fragment(Some _) result is inside 0x21..0x7E and free of space, dquote, '<', '>', backtick *)
+Theorem C05_fragment : forall dbg dbg' hp hpo hd ovr base input u f,
+  parse_url dbg hp hpo hd ovr base input = POk u -> fragment dbg' u = Some (Some f) ->
+  Forall ok_byte f /\ forall d, In d [32; 34; 60; 62; 96] -> ~ In d f.
+Proof.
+  intros dbg dbg' hp hpo hd ovr base input u f Hp Hf.
+  exact (frag_oku_fragment dbg' u f (parse_url_frag dbg hp hpo hd ovr base input u Hp) Hf).
+Qed.
+Check C05_fragment : forall dbg dbg' hp hpo hd ovr base input u f,
+  parse_url dbg hp hpo hd ovr base input = POk u -> fragment dbg' u = Some (Some f) ->
+  Forall ok_byte f /\ forall d, In d [32; 34; 60; 62; 96] -> ~ In d f.
+Print Assumptions C05_fragment.
+
+Theorem C05_set_fragment : forall dbg dbg' u input u' f,
+  set_fragment dbg u (Some input) = Some u' -> fragment dbg' u' = Some (Some f) ->
+  Forall ok_byte f /\ forall d, In d [32; 34; 60; 62; 96] -> ~ In d f.
+Proof.
+  intros dbg dbg' u input u' f Hs Hf.
+  exact (frag_oku_fragment dbg' u' f (set_fragment_frag dbg u input u' Hs) Hf).
+Qed.
+Check C05_set_fragment : forall dbg dbg' u input u' f,
+  set_fragment dbg u (Some input) = Some u' -> fragment dbg' u' = Some (Some f) ->
+  Forall ok_byte f /\ forall d, In d [32; 34; 60; 62; 96] -> ~ In d f.
+Print Assumptions C05_set_fragment.
 
 (* ================= 3. histories ================= *)
 (* Reachable dbg hp hpo hd : parse without base, parse against a reachable base (any encoding
